@@ -128,3 +128,4 @@ func shardSeedNote() string {
 	i, n := sim.Shard()
 	return fmt.Sprintf("shard %d/%d", i, n)
 }
+
